@@ -42,7 +42,9 @@ INLINE_NAMES = ["span", "a", "b", "i", "em", "strong", "code", "small", "sub", "
 
 ATTR_NAMES = ["id", "class", "style", "href", "title", "data-x", "data-a-b", "aria-label", "x:y", "@click",
               ":bind", "v-on.stop", "_u", "A", "a", "onclick", "value", "name", "lang", "dir", "role", "viewBox", "viewbox", "Data-X", "aria-hidden",
-              "aria-checked", "hidden", "className", "htmlFor", "tabIndex", "readOnly", "for", "class-name", "acceptCharset", "xlink:href", "xml:lang"]
+              "aria-checked", "hidden", "className", "htmlFor", "tabIndex", "readOnly", "for", "class-name", "acceptCharset", "xlink:href", "xml:lang",
+              # names that keep a separator at the end / doubled in the middle once they are normalised
+              "a__", "trail-", "x_-", "data-x-", "a__b", "b--c"]
 
 # ------------------------------------------------------------------ text classes
 META = "&<>\"';#\r\n"
@@ -56,7 +58,7 @@ EXOTIC = ["\x00", "\x01", "\x0b", "\x0c", "\x1f", "\x7f", "\x85", "\xa0", " ",
 
 
 def text_of(rng: random.Random, cls: str | None = None) -> str:
-    cls = cls or rng.choice(["word", "word", "meta", "markup", "ws", "nl", "exotic", "mixed", "empty", "long"])
+    cls = cls or rng.choice(["word", "word", "meta", "markup", "ws", "nl", "exotic", "mixed", "empty", "long", "backslash"])
     if cls == "word":
         return " ".join(rng.choice(WORDS) for _ in range(rng.randint(1, 3)))
     if cls == "meta":
@@ -71,6 +73,8 @@ def text_of(rng: random.Random, cls: str | None = None) -> str:
         return "".join(rng.choice(EXOTIC + WORDS + list(META)) for _ in range(rng.randint(1, 6)))
     if cls == "mixed":
         return "".join(rng.choice(MARKUPISH + WORDS + EXOTIC + list(META) + [" "]) for _ in range(rng.randint(1, 8)))
+    if cls == "backslash":
+        return "".join(rng.choice(["C:\\new\\table.csv", "\\1", "\\g<0>", "\\", "a\\nb", "\\u0041", "\\\\", "\\t", "x", " ", "\\g<name>", "$1", "\\0"]) for _ in range(rng.randint(1, 4)))
     if cls == "empty":
         return ""
     if cls == "long":
@@ -160,6 +164,22 @@ class SubDep(ht.HTMLDependency):
 class SubMeta(ht.MetadataNode):
     def __init__(self):
         self.payload = ["user data"]
+
+
+class ReprInt(int):
+    def __repr__(self):
+        return "<ReprInt %d>" % int(self)
+
+    def __str__(self):
+        return int.__repr__(self)
+
+
+class ReprFloat(float):
+    def __repr__(self):
+        return "<ReprFloat %r>" % float(self)
+
+    def __str__(self):
+        return float.__repr__(self)
 
 
 class BadRepr:
@@ -345,7 +365,10 @@ def build_attr_value(v):
     if t == "html":
         return HTMLSub(v["s"]) if v.get("sub") else ht.HTML(v["s"])
     if t == "num":
-        return _num(v["v"])
+        x_ = _num(v["v"])
+        if v.get("sub") and type(x_) in (int, float):
+            return (ReprInt if type(x_) is int else ReprFloat)(x_)   # str() is the number's text, repr() is something else
+        return x_
     if t == "true":
         return True
     if t == "false":
